@@ -419,6 +419,18 @@ structure FlNHG where
   BackupNextHopGroup : Option Nat
   deriving DecidableEq, Repr, Inhabited
 
+/-- `client.ClientErr` as chk's helpers look at it: the send and the receive errors -/
+structure ClientErrG where
+  Send : List Status
+  Recv : List Status
+  deriving DecidableEq, Repr, Inhabited
+
+/-- a non-nil `error` as chk's helpers look at it: `AsClientErr` is what it holds when its
+dynamic type is `*client.ClientErr`, none when it is anything else -/
+structure ErrView where
+  AsClientErr : Option ClientErrG
+  deriving DecidableEq, Repr, Inhabited
+
 /-- `rib.FlushErr`: the errors of the deletes that failed -/
 structure FlushErr where
   Errs : List Status
